@@ -931,6 +931,9 @@ def _sel_replay(models, seed, op):
             else:
                 ops.append({"op": "Swap", "args": ["a", "b", str(c)], "init": {"a": ref.fmt_limbs(pool[i]), "b": ref.fmt_limbs(pool[i + 1])}})
                 meta.append((pool[i], pool[i + 1], c, None))
+                # an element swapped with itself
+                ops.append({"op": "Swap", "args": ["a", "a", str(c)], "init": {"a": ref.fmt_limbs(pool[i])}})
+                meta.append((pool[i], pool[i], c, "self"))
     res = native.run_ops("field", ops)
     for (a, b, c, dst), r in zip(meta, res):
         if op == "Select":
@@ -942,6 +945,10 @@ def _sel_replay(models, seed, op):
                 return dict(what="Select modified an argument", op=op, inputs=dict(a=a, b=b, cond=c))
         else:
             wa, wb = (b, a) if c == 1 else (a, b)
+            if dst == "self":
+                if ref.parse_limbs(r["slots"]["a"]) != a:
+                    return dict(what="v.Swap(v, %d) changed v: %s, was %s" % (c, r["slots"]["a"], a), op=op, inputs=dict(a=a, cond=c))
+                continue
             if ref.parse_limbs(r["slots"]["a"]) != wa or ref.parse_limbs(r["slots"]["b"]) != wb:
                 return dict(what="Swap(cond=%d) wrong: %s" % (c, r["slots"]), op=op, inputs=dict(a=a, b=b, cond=c))
     return None
